@@ -18,6 +18,7 @@ class Rule:
         self.choices = choices
         self.gid = None          # global rule id == token value
         self.logs = kind not in ('skip', 'tok')
+        self.with_text = kind == 'mret'     # the action also logs match_() (needs a &str lexer)
 
 
 class Def:
@@ -35,6 +36,7 @@ class Def:
                 g += 1
         self.nrules = g
         self.fallible = any(r.kind in ('fok', 'ferr', 'fcont', 'fdyn') for _, rs in rulesets for r in rs)
+        self.str_input = any(r.kind == 'mret' for _, rs in rulesets for r in rs)
         self._compiled = None
 
     def rs_names(self):
@@ -85,6 +87,8 @@ class Def:
         if r.kind == 'tok':
             return ' = %d' % r.gid
         log = 'vlog(%d, lexer.match_loc(), lexer.peek());' % r.gid
+        if r.kind == 'mret':
+            return ' => |lexer| { vlog_str(%d, lexer.match_loc(), lexer.peek(), lexer.match_()); lexer.return_(%d) }' % (r.gid, r.gid)
         if r.kind in ('dyn', 'fdyn'):
             arms = []
             for i, (k, t) in enumerate(r.choices):
@@ -280,7 +284,7 @@ def ref_next(d, o, st):
             if st.done:
                 return ('none',), events, info
             continue
-        if kind in ('tok', 'ret', 'swret', 'fok'):
+        if kind in ('tok', 'ret', 'swret', 'fok', 'mret'):
             item = ('tok', r.gid, st.ms, e)
             st.ms = e
             return item, events, info
@@ -338,8 +342,12 @@ def ref_run_concrete(d, cps, start_rho, script, err, ncalls, widths):
         except RefAbort as e:
             lines.append('ABORT ' + str(e))
             break
+        texty = {r.gid for _, rs_ in d.rulesets for r in rs_ if r.with_text}
         for gid, ms, e in events:
-            lines.append('A %d %s %s %s' % (gid, fl(ms), fl(e), '-' if e >= len(cps) else str(cps[e])))
+            l = 'A %d %s %s %s' % (gid, fl(ms), fl(e), '-' if e >= len(cps) else str(cps[e]))
+            if gid in texty:
+                l += ' M' + '.'.join(str(x) for x in cps[ms:e])
+            lines.append(l)
         if item[0] == 'none':
             lines.append('I none')
         elif item[0] == 'tok':
